@@ -20,7 +20,7 @@ TZS = [timezone.utc, timezone(timedelta(hours=5, minutes=30)), timezone(-timedel
 def _embs(ctx):
     day_base = ctx.base.replace(hour=18, minute=0, second=0, microsecond=0)
     q = [
-        dict(name="coarse", unit_us=1_000_000, base=ctx.base, starts=range(0, 6), durs=(0, 1, 2, 3), n=2, wr=range(-1, 8), shifts=[(0, 0)], limits=(-1, 0, 1, 2, 5)),
+        dict(name="coarse", unit_us=1_000_000, base=ctx.base, starts=range(0, 6), durs=(0, 1, 2, 3), n=2, wr=range(-1, 8), shifts=[(0, 0)], limits=(-1, -2, -7, 0, 1, 2, 5)),
         dict(name="fine", unit_us=1_000, base=ctx.base, starts=range(0, 4), durs=(0, 1, 2), n=2, wr=range(-3, 7), shifts=[(0, 0), (1, 999), (500, 500), (999, 1)], limits=(-1, 1)),
         dict(name="day", unit_us=6 * 3600 * 1_000_000, base=day_base, starts=range(0, 5), durs=(0, 1, 4), n=2, wr=range(-1, 7), shifts=[(0, 0)], limits=(-1, 1)),
         # 1 ms lattice straddling a whole-second boundary (.996 .. 1.004 s): window ends in the last
@@ -29,7 +29,7 @@ def _embs(ctx):
     ]
     if ctx.thorough:
         q = [
-            dict(name="coarse", unit_us=1_000_000, base=ctx.base, starts=range(0, 6), durs=(0, 1, 2, 3), n=3, wr=range(-1, 8), shifts=[(0, 0)], limits=(-1, 0, 1, 2, 3, 5)),
+            dict(name="coarse", unit_us=1_000_000, base=ctx.base, starts=range(0, 6), durs=(0, 1, 2, 3), n=3, wr=range(-1, 8), shifts=[(0, 0)], limits=(-1, -2, -7, 0, 1, 2, 3, 5)),
             dict(name="fine", unit_us=1_000, base=ctx.base, starts=range(0, 4), durs=(0, 1, 2), n=3, wr=range(-3, 7), shifts=[(0, 0), (1, 999), (500, 500), (999, 1), (999, 999), (1, 1)], limits=(-1, 1, 2)),
             dict(name="fine3", unit_us=3_000, base=ctx.base, starts=range(0, 4), durs=(0, 1, 2), n=2, wr=range(-2, 7), shifts=[(0, 0), (1, 999), (1500, 2500), (2999, 1)], limits=(-1, 1)),
             dict(name="day", unit_us=6 * 3600 * 1_000_000, base=day_base, starts=range(0, 5), durs=(0, 1, 3, 4), n=3, wr=range(-1, 7), shifts=[(0, 0)], limits=(-1, 1, 2)),
